@@ -434,6 +434,11 @@ macro_rules! harness {
     ($name:ident, $body:expr) => {
         #[kani::proof]
         #[kani::stub(core::arch::x86_64::_mm_shuffle_epi8, crate::models::mm_shuffle_epi8)]
+        #[kani::stub(core::arch::x86_64::_mm_load_si128, crate::models::forbid_mm_load_si128)]
+        #[kani::stub(core::arch::x86_64::_mm_store_si128, crate::models::forbid_mm_store_si128)]
+        #[kani::stub(core::arch::x86_64::_mm256_load_si256, crate::models::forbid_mm256_load_si256)]
+        #[kani::stub(core::arch::x86_64::_mm256_store_si256, crate::models::forbid_mm256_store_si256)]
+        #[kani::stub(core::arch::x86_64::_mm_stream_si128, crate::models::forbid_mm_stream_si128)]
         #[kani::stub(core::arch::x86_64::_mm256_shuffle_epi8, crate::models::mm256_shuffle_epi8)]
         #[kani::stub(core::arch::x86_64::_mm_packus_epi16, crate::models::mm_packus_epi16)]
         #[kani::stub(core::arch::x86_64::_mm_add_epi32, crate::models::mm_add_epi32)]
